@@ -24,6 +24,10 @@ def run(model, rep, tier):
     from . import c01, c02
     c01.r6_final_teardown(ctx, rep, R='C16.R5')
     c01.recorded_before_next_hook(ctx, rep, 'C16.R5')
+    # "the summary is still printed and the verdict is 'failed'": the report hooks read the recorded
+    # entries without assuming a type for their second component (shared with C12.R7)
+    from . import c12
+    c12.entry_info_is_opaque(ctx, rep, 'C16.R5')
     c02.r1_verdict_expression(ctx, rep, R='C16.R6')
     rep.units['cfg'] = ctx.cfg_stats
 
